@@ -1,5 +1,5 @@
 """Registry: property id -> check function(ctx) -> exit code."""
-from checks import tracker, sshdfam, sshdproc, conc, healthchk, framingchk
+from checks import tracker, sshdfam, sshdproc, conc, healthchk, framingchk, pipeline
 
 
 def _tracker(prop):
@@ -55,3 +55,17 @@ def _c12(ctx):
 
 
 REGISTRY["C12"] = _c12
+
+
+def _c13(ctx):
+    cov = pipeline.run_c13(ctx)
+    return ctx.finish("model_checking", cov, pipeline.ASSUME13)
+
+
+def _c08(ctx):
+    cov = pipeline.run_c08(ctx)
+    return ctx.finish("model_checking", cov, pipeline.ASSUME08)
+
+
+REGISTRY["C13"] = _c13
+REGISTRY["C08"] = _c08
